@@ -493,6 +493,7 @@ def run(tier):
     admissible_checked = 0
 
     for (exname, exparam, excluded) in settings:
+        seen_defs = set()       # quick tier: besides the 10 % sample, the first node of every distinct (type, min, max) definition
         maps, failed = load_maps(real, exparam)
         notes['not_loadable'] = failed
         if not maps:
@@ -511,6 +512,10 @@ def run(tier):
                 take = tier == 'thorough' or nrnd.random() < 0.10
                 if kind_ == 'e':
                     d = nd
+                    sig = (d.ty, d.mn, d.mx, d.usage == 'N')
+                    if sig not in seen_defs and not d.dangling:
+                        seen_defs.add(sig)
+                        take = True
                     key = 'map:%s:%s' % (mapfile, d.path)
                     # ---- definition sanity (domain of the model) and map-data findings: every node, every tier
                     if exname == 'off':
